@@ -242,15 +242,22 @@ def direct_failure(ref, reps):
         return ("resume-incomplete", "the restarted run did not finish: %s" % fin["outcome"])
     if fin["final"]["hash"] != ref["final"]["hash"]:
         return ("resume-differs", "resume=True after a kill before [%s] returns (samples, state) that differ from the "
-                "uninterrupted run: nit %s vs %s, pos %s vs %s" % (where, fin["final"]["nit"], ref["final"]["nit"],
-                                                                   fin["final"]["pos"][:3], ref["final"]["pos"][:3]))
+                "uninterrupted run: nit %s vs %s, pos %s vs %s, array leaves %s vs %s"
+                % (where, fin["final"]["nit"], ref["final"]["nit"], fin["final"]["pos"][:3], ref["final"]["pos"][:3],
+                   fin["final"]["n_leaves"], ref["final"]["n_leaves"]))
     for j, h in fin.get("iters", {}).items():
         if ref["iters"].get(j) != h:
             return ("resume-differs", "iteration %s of the restarted run differs from the uninterrupted run" % j)
-    pre = fin["pre"]
-    if pre["last"] == "valid" and ref["iters"].get(str(pre["last_state"]["nit"])) != pre["last_state"]["hash"]:
-        return ("state-file-wrong", "last.pkl after the kill loads but is not the state of completed iteration %s"
-                % pre["last_state"]["nit"])
+    return None
+
+
+def state_file_mismatch(ref, reps):
+    """Model-level observation (not the property itself): a loadable last.pkl found after a kill holds
+    exactly the state the uninterrupted run had after iteration state.nit (model: Valid (iter j))."""
+    for r in reps:
+        pre = r["pre"]
+        if pre["last"] == "valid" and ref["iters"].get(str(pre["last_state"]["nit"])) != pre["last_state"]["hash"]:
+            return "last.pkl found after the kill loads but is not the state of completed iteration %s" % pre["last_state"]["nit"]
     return None
 
 
@@ -362,6 +369,9 @@ class C24(C.Check):
             for pts, r0, tag in runs:
                 for (cfg_, ref_, cps, r0_, reps) in self.run_points(ctx, ci, cfg, ref, pts, r0=r0, tag=tag):
                     checks.append(chain_check(False, extras, n, r0, cps, reps))
+                    sm = state_file_mismatch(ref, reps)
+                    if sm and not any(b["name"] == "content of last.pkl vs model" for b in res.broken):
+                        res.add_broken("correspondence", "content of last.pkl vs model", {"what": sm, "cfg": cfg, "cps": cps})
                     meta.append({"what": "crash chain" + (", first run with resume=True" if r0 else ""), "cfg": cfg,
                                  "cps": cps, "pre": reps[-1]["pre"], "final_ops": reps[-1]["ops"],
                                  "outcome": reps[-1]["outcome"]})
@@ -419,7 +429,7 @@ class C24(C.Check):
         i = rp["input"]
         cfg = i["case"]
         ref = run_chain(ctx, self.wd(ctx, "replay_ref"), cfg, [], False)[0]
-        reps = run_chain(ctx, self.wd(ctx, "replay"), cfg, [tuple(c) for c in i["cps"]], bool(i.get("r0", False)))
+        reps = run_chain(ctx, self.wd(ctx, "replay"), cfg, sanitize(i["cps"], ref["ops"]), bool(i.get("r0", False)))
         f = direct_failure(ref, reps)
         if f:
             print("  " + f[1])
